@@ -84,7 +84,8 @@ def make_row(rid, job, out):
                                  "entries": [{"kind": e["kind"], "steps": e["steps"], "hook": bool(e["hook"])} for e in c["entries"]]}
                                 for c in f["cases"]]})
     return {"id": rid, "prog": slim_prog(job["flat"]),
-            "cfg": {"show_skipped": bool(job["cfg"]["show_skipped"]), "dry": bool(job["cfg"]["dry"])},
+            "cfg": {"show_skipped": bool(job["cfg"]["show_skipped"]), "dry": bool(job["cfg"]["dry"]),
+                    "retry": bool(job["cfg"].get("retry", False))},
             "sw": {"show_skipped_always": bool(job["sw"].get("show_skipped_always", False))},
             "end": {"escaped": end["escaped"] or "", "status": end["status"], "step_status": end["step_status"],
                     "hook_failed": end["hook_failed"]},
@@ -103,7 +104,8 @@ def job_class(job):
     cl_raise = any(s["cl_id"] and s["cl_raises"] and s["cl_layer"] in ("", "scenario") for e in elems for s in e["steps"])
     kinds = {e["kind"] for e in elems}
     c = job["cfg"]
-    return (cl_raise, bool(job["fault"][0]), "fail" in outs, any(o in ERRORISH for o in outs), "outline" in kinds, "rule" in kinds,
+    fails = "fail" in outs or any(o.startswith("nest_") and o != "nest_pass" for o in outs)     # a failing sub-step fails its step
+    return (cl_raise, bool(job["fault"][0]), fails, any(o in ERRORISH for o in outs), "outline" in kinds, "rule" in kinds,
             c["expr"] != "true", bool(c["show_skipped"]), bool(c["dry"]), len(job["prog"]["features"]) > 1)
 
 
